@@ -301,7 +301,7 @@ pub fn run(tier: Tier) -> Report {
     rep.evaluations = rep.transitions;
     rep.traces_validated = 2 * n_a + n_b;
     rep.distinct_nontrivial = n_a;
-    rep.rule = "all message histories over {initialize, initialized, supported request, unknown request, didOpen, unknown notification, shutdown, exit} up to the length bound against the release binary, once with a lock-step client and once fully pipelined in one write (then end of input): responses per the lifecycle automaton, exit status, prompt exit; every byte prefix of every short session followed by end of input; in process (real run(), tokio shim) every history that does not reach process::exit(1), delivered pipelined, under every schedule within the preemption bound with the real channel capacities and with capacities clamped to 1: no deadlock, run() returns Ok, every expected response present at the instant run() returns, one distinct output".into();
+    rep.rule = "all message histories over {initialize, initialized, supported request, unknown request, unknown $/ request, didOpen, unknown notification, shutdown, exit} up to the length bound against the release binary, once with a lock-step client and once fully pipelined in one write (then end of input): responses per the lifecycle automaton, exit status, prompt exit; every byte prefix of every short session followed by end of input; in process (real run(), tokio shim) every history that does not reach process::exit(1), delivered pipelined, under every schedule within the preemption bound with the real channel capacities and with capacities clamped to 1: no deadlock, run() returns Ok, every expected response present at the instant run() returns, one distinct output".into();
     rep.bounds = json!({"seconds_process_histories": t_a, "seconds_prefixes": t_b - t_a, "seconds_schedules": rep.start.elapsed().as_secs_f64() - t_b, "history_length": tier.pick(4,5), "histories_process": n_a, "prefix_cases": n_b, "prefix_history_length": tier.pick(2,3), "histories_in_process": safe.len(), "preemption_bound": bound, "preemption_bound_longest_histories": bound - 1, "schedules_explored": execs.load(Ordering::Relaxed), "scheduling_decisions": decisions.load(Ordering::Relaxed), "histories_with_schedule_dependent_output": multi.load(Ordering::Relaxed)});
     rep.sample(json!({"history": "IiRSX", "expected": "init result, served, null; exit status 0"}));
     rep.sample(json!({"history": "IX", "expected": "init result; exit status 1"}));
@@ -325,6 +325,7 @@ fn parse_history(s: &str) -> Vec<Msg> {
             'i' => Some(Msg::Initialized),
             'R' => Some(Msg::Supported),
             'U' => Some(Msg::UnknownRequest),
+            '$' => Some(Msg::DollarRequest),
             'D' => Some(Msg::DocNotification),
             'n' => Some(Msg::UnknownNotification),
             'S' => Some(Msg::Shutdown),
